@@ -9343,8 +9343,11 @@ let rec contains t s =
 (** val script_validate : str -> vresult **)
 
 let script_validate line =
-  if contains ((Npos (XI (XI (XO (XO (XO XH)))))) :: ((Npos (XI (XI (XO (XO
-       (XO XH)))))) :: [])) line
+  if (||)
+       (contains ((Npos (XI (XI (XO (XO (XO XH)))))) :: ((Npos (XI (XI (XO
+         (XO (XO XH)))))) :: [])) line)
+       (contains ((Npos (XI (XI (XO (XO (XO XH)))))) :: ((Npos (XO (XO (XO
+         (XO (XO (XO XH))))))) :: [])) line)
   then VRError
   else if contains ((Npos (XI (XO (XO (XO (XO XH)))))) :: ((Npos (XI (XO (XO
             (XO (XO XH)))))) :: [])) line
